@@ -82,9 +82,22 @@ def gen_case(rng):
             o_e[i] = np.nan
         else:
             o_e[i] = np.inf
+    dtype = 'f8'
+    if not specials and rng.random() < 0.1:
+        # integer-valued datasets (counts), possibly with large differences
+        dtype = rng.choice(['i4', 'i8'])
+        big = rng.choice([10, 1000, 10 ** 5, 3 * 10 ** 5])
+        ref_v = np.array([float(rng.randint(-big, big)) for _ in range(size)])
+        ref_e = np.array([float(rng.randint(0 if ignore else 1, 50))
+                          for _ in range(size)])
+        others = [[np.array([float(rng.randint(-big, big))
+                             for _ in range(size)]),
+                   np.array([float(rng.randint(0 if ignore else 1, 50))
+                             for _ in range(size)])] for _ in range(nds)]
+        specials.add('integer-' + dtype)
     return {'shape': shp, 'alpha': alpha, 'ignore': ignore, 'ref': [ref_v,
                                                                     ref_e],
-            'others': others, 'specials': sorted(specials)}
+            'others': others, 'specials': sorted(specials), 'dtype': dtype}
 
 
 def build(cas, perm=None):
@@ -93,12 +106,13 @@ def build(cas, perm=None):
     shp = cas['shape']
 
     def mkds(val, err, name):
-        val, err = np.array(val, dtype=float), np.array(err, dtype=float)
+        dtype = np.dtype(cas.get('dtype', 'f8'))
+        val, err = np.array(val, dtype=dtype), np.array(err, dtype=dtype)
         if perm is not None:
             val, err = val[perm], err[perm]
         val, err = val.reshape(shp), err.reshape(shp)
         if shp == ():
-            val, err = np.float64(val), np.float64(err)
+            val, err = dtype.type(val), dtype.type(err)
         return Dataset(val, err, name=name)
     return TestChi2(mkds(*cas['ref'], 'ref'),
                     *[mkds(o_v, o_e, f'd{k}')
